@@ -1,0 +1,8 @@
+//go:build verif
+
+// Contracts for package env, read by /verif/bin/gvc (contract-based deductive verification).
+// This file contains comments only; it is compiled only under the build tag "verif".
+package env
+
+//@ func GetEnviron
+//@   sweep                                                          [C16]
